@@ -284,4 +284,23 @@ theorem parseLoop_frames (cfg : Cfg Msg) (ms : List Msg) (hok : ∀ m ∈ ms, Ms
     rw [ih (fun m' hm' => hok m' (by simp [hm'])) _ tail rfl]
     simp [List.append_assoc]
 
+
+theorem parseLoop_msg_nocb (cfg : Cfg Msg) (c : Conn Msg) (m : Msg) (rest : Bytes)
+    (h : parseOne cfg.dec c.rbuf = .msg m rest) (hcb : cfg.cbDisc m = false) :
+    parseLoop cfg c = parseLoop cfg { c with rbuf := rest, delivered := c.delivered ++ [m] } := by
+  rw [parseLoop_msg cfg c m rest h]; simp [hcb]
+
+/-! ### exact consumption of the payload (repair D83) -/
+
+/-- The decoder accepts a payload only if it is consumed exactly: a decodable payload followed by anything is
+rejected (`zlib.decompressobj`: `eof` and no `unused_data`; `pickle.load` from a stream that must be exhausted).
+The unrepaired decoder (`zlib.decompress`, `pickle.loads`) ignores trailing bytes and is NOT strict. -/
+def StrictDec (cfg : Cfg Msg) : Prop :=
+  ∀ p x m, cfg.dec p = some m → x ≠ [] → cfg.dec (p ++ x) = none
+
+theorem frame_overrun (p rest : Bytes) (k : Nat) (hk : k ≤ rest.length) :
+    le32 (p.length + k) ++ p ++ rest = frame (p ++ rest.take k) ++ rest.drop k := by
+  have hl : (rest.take k).length = k := by simp [List.length_take]; omega
+  simp only [frame, List.length_append, hl, List.append_assoc, List.take_append_drop]
+
 end PSO.Framing
